@@ -18,6 +18,8 @@ type Cfg struct {
 	Variadic    bool
 	TrOneIn     int // wrap a sub-expression in (tr id …) with probability 1/TrOneIn (0 = never)
 	MaxStmts    int // statements per body (default 3)
+	RetCloOneIn int  // a defn returns a closure with probability 1/RetCloOneIn (default 4)
+	Canary      bool // inside functions, sometimes read a pool name that is not lexically visible (dynamic-scope canary)
 }
 
 type G struct {
@@ -26,6 +28,8 @@ type G struct {
 	trn int64
 	fnn int
 	// statistics for the non-triviality rules
+	TopFns []FnSig
+	NCanary int
 	NClosures, NShadow, NLoops, NBreaks, NLazyParams, NForce, NVariadic, NInj, NTry, NHigher int
 }
 
@@ -38,11 +42,22 @@ type fnsig struct {
 	clo  []bool // parameter i is a closure of arity 1
 }
 
+// FnSig is the exported view of a global function signature.
+type FnSig struct {
+	Name     string
+	N        int
+	Variadic bool
+	RetClo   bool
+	Lazy     []bool
+	Clo      []bool
+}
+
 type sc struct {
 	ints, strs, arrs, lsts, hashes []string
 	lazy                           []string
 	fns                            []fnsig
 	loops                          []string
+	loopVars                       []string // loop variables of enclosing loops (not assigned in bodies: keeps loops finite)
 	inFn                           bool
 	inLoop                         bool // lexically inside a for body of the current function
 }
@@ -57,6 +72,7 @@ func (s *sc) clone() *sc {
 	c.lazy = append([]string{}, s.lazy...)
 	c.fns = append([]fnsig{}, s.fns...)
 	c.loops = append([]string{}, s.loops...)
+	c.loopVars = append([]string{}, s.loopVars...)
 	return &c
 }
 
@@ -93,7 +109,34 @@ func (g *G) lit() *N { return Int(intPool[g.r(len(intPool))]) }
 
 // Program generates a list of top-level forms whose last one is an int expression.
 func (g *G) Program() []*N {
-	return g.stmts(&sc{}, g.C.Depth, true)
+	top := &sc{}
+	prog := g.stmts(top, g.C.Depth, true)
+	for _, f := range top.fns {
+		g.TopFns = append(g.TopFns, FnSig{f.name, f.n, f.vr, f.ret != 0, f.lazy, f.clo})
+	}
+	return prog
+}
+
+// BatteryCall builds a call of global function f with integer arguments
+// (closure parameters get (fn [a] (+ a 1))); a returned closure is applied too.
+func BatteryCall(f FnSig, arg int64) *N {
+	a := []*N{Var(f.Name)}
+	n := f.N
+	if f.Variadic {
+		n = f.N + 1
+	}
+	for i := 0; i < n; i++ {
+		if i < len(f.Clo) && f.Clo[i] {
+			a = append(a, &N{K: "fn", Ps: []string{"a"}, A: []*N{Call("+", Var("a"), Int(1))}})
+			continue
+		}
+		a = append(a, Int(arg+int64(i)))
+	}
+	call := &N{K: "app", A: a}
+	if f.RetClo {
+		return App(call, Int(arg+7))
+	}
+	return call
 }
 
 // arg: the scope as seen from a function-call argument position. zygomys
@@ -120,6 +163,16 @@ func (g *G) intE(s *sc, d int) *N {
 
 func (g *G) intE0(s *sc, d int) *N {
 	if d <= 0 || g.r(4) == 0 {
+		if g.C.Canary && s.inFn && g.r(10) == 0 {
+			p := g.pool()
+			if !contains(s.ints, p) {
+				g.NCanary++
+			}
+			if g.C.Try && g.r(2) == 0 {
+				return &N{K: "try", A: []*N{Var(p)}}
+			}
+			return Var(p)
+		}
 		if len(s.ints) > 0 && g.r(2) == 0 {
 			return (Var(s.ints[g.r(len(s.ints))]))
 		}
@@ -191,6 +244,9 @@ func (g *G) intE0(s *sc, d int) *N {
 	case 7:
 		if len(s.ints) > 0 {
 			v := s.ints[g.r(len(s.ints))]
+			if contains(s.loopVars, v) {
+				return g.intE(s, d-1)
+			}
 			return (&N{K: "set", S: v, A: []*N{g.intE(s, d-1)}})
 		}
 		return g.intE(s, d-1)
@@ -541,6 +597,9 @@ func (g *G) stmt(s *sc, d int) *N {
 	switch g.r(top) {
 	case 0, 1: // def int
 		p := g.pool()
+		if contains(s.loopVars, p) {
+			return g.intE(s, d-1)
+		}
 		n := &N{K: "def", S: p, A: []*N{g.intE(s, d-1)}}
 		s.ints = appendU(s.ints, p)
 		return n
@@ -554,7 +613,7 @@ func (g *G) stmt(s *sc, d int) *N {
 		ns.inFn = true
 		sig := fnsig{name: name}
 		g.fnParams(fn, s, ns, &sig, true)
-		if g.C.HigherOrder && g.r(4) == 0 {
+		if g.C.HigherOrder && g.r(max(g.C.RetCloOneIn, 2)+2*btoi(g.C.RetCloOneIn == 0)) == 0 {
 			// returns a closure of arity 1 that captures this activation
 			sig.ret = 2
 			body := g.stmts(ns, d-1, false)
@@ -593,6 +652,7 @@ func (g *G) stmt(s *sc, d int) *N {
 		}
 		ns.ints = appendU(ns.ints, lv)
 		ns.loops = append(ns.loops, lab)
+		ns.loopVars = appendU(ns.loopVars, lv)
 		ns.inLoop = true
 		g.NLoops++
 		body := []*N{}
@@ -621,7 +681,39 @@ func (g *G) stmt(s *sc, d int) *N {
 	case 6:
 		if len(s.ints) > 0 {
 			v := s.ints[g.r(len(s.ints))]
+			if contains(s.loopVars, v) {
+				return g.intE(s, d-1)
+			}
 			return &N{K: "set", S: v, A: []*N{g.intE(s, d-1)}}
+		}
+	case 7: // re-point an existing closure variable at a closure made here (escapes this activation)
+		var cands []fnsig
+		for _, f := range s.fns {
+			if f.name[0] == 'g' && !f.vr && f.ret == 0 && !anyTrue(f.lazy) && !anyTrue(f.clo) {
+				cands = append(cands, f)
+			}
+		}
+		if len(cands) > 0 {
+			f := cands[g.r(len(cands))]
+			fn := &N{K: "fn"}
+			ns := s.clone()
+			ns.loops = nil
+			ns.inLoop = false
+			ns.inFn = true
+			for len(fn.Ps) < f.n {
+				p := g.pool()
+				if contains(fn.Ps, p) {
+					p = fmt.Sprintf("%s%d", p, len(fn.Ps))
+				}
+				if contains(s.ints, p) {
+					g.NShadow++
+				}
+				fn.Ps = append(fn.Ps, p)
+				ns.ints = appendU(ns.ints, p)
+			}
+			fn.A = g.stmts(ns, d-1, true)
+			g.NClosures++
+			return &N{K: "set", S: f.name, A: []*N{fn}}
 		}
 	case 8: // data definitions (fresh name per site and never in a loop body:
 		// re-def of a name in the same scope is subject to the value-type rule of
@@ -662,4 +754,20 @@ func (g *G) stmt(s *sc, d int) *N {
 		}
 	}
 	return g.intE(s, d-1)
+}
+
+func btoi(b bool) int {
+	if b {
+		return 1
+	}
+	return 0
+}
+
+func anyTrue(b []bool) bool {
+	for _, x := range b {
+		if x {
+			return true
+		}
+	}
+	return false
 }
